@@ -192,6 +192,24 @@ func (v *Verifier) VerifyFunc(key string, c *Contract, class map[string]string) 
 				st.Assume(Not(Eq(pv.L[0], IntLit(0))))
 			}
 		}
+		if pt, ok := t.Underlying().(*types.Pointer); ok {
+			// the pointee, if any, is a well-formed value of its type
+			pe := resolve(pt.Elem(), env)
+			if _, isStruct := pe.Underlying().(*types.Struct); !isStruct || true {
+				func() {
+					defer func() { recover() }()
+					pointee := e.loadLoc(st, e.locOf(pv))
+					st.Assume(e.wellFormed(pointee, e.next0))
+					for i, lf := range e.lay.Leaves(pe) {
+						n := "*" + p.Name()
+						if lf.Path != "" {
+							n += "." + lf.Path
+						}
+						e.inputs[n] = pointee.L[i]
+					}
+				}()
+			}
+		}
 		ls := e.lay.Leaves(t)
 		for i, lf := range ls {
 			n := p.Name()
